@@ -547,16 +547,18 @@ func (s *Server) Close() error {
 
 	s.config.deregisterDiagnostics(s.Monitor)
 
-	if s.ShardWriter != nil {
-		s.ShardWriter.Close()
-	}
-
+	// The points writer and hinted handoff send through the shard writer:
+	// stop them before it.
 	if s.PointsWriter != nil {
 		s.PointsWriter.Close()
 	}
 
 	if s.HintedHandoff != nil {
 		s.HintedHandoff.Close()
+	}
+
+	if s.ShardWriter != nil {
+		s.ShardWriter.Close()
 	}
 
 	if s.MetaExecutor != nil {
